@@ -268,6 +268,30 @@ pred itemTimesAt(b map[int]int, p int, it Item) := itemBaseAt(b, p, it) && w64(b
 pred itemKeysAt(b map[int]int, p int, it Item) := itemBaseAt(b, p, it) && w64(b, p + 16) == it.KeyHash
 pred itemFullAt(b map[int]int, p int, it Item) := itemBaseAt(b, p, it) && w64(b, p + 16) == u64(it.Timestamp) && w64(b, p + 24) == it.KeyHash
 
+// ---- file header (C13): FF 'k' 'l' 'e' 'v' 'i', the version marker, a flags byte (bit 0: times, bit 1: keys)
+axiom vlast := VLast == V2
+axiom magicBytes := magic[0] == 255 && magic[1] == 107 && magic[2] == 108 && magic[3] == 101 && magic[4] == 118 && magic[5] == 105
+
+pred hdrMagic(h []byte) := len(h) >= 6 && abs(h, base(h)) == 255 && abs(h, base(h)+1) == 107 && abs(h, base(h)+2) == 108 && abs(h, base(h)+3) == 101 && abs(h, base(h)+4) == 118 && abs(h, base(h)+5) == 105
+pred hdrV2(h []byte, o Params) := len(h) >= 8 && hdrMagic(h) && abs(h, base(h)+6) == 1 && abs(h, base(h)+7) == ite(o.Times, 1, 0) + ite(o.Keys, 2, 0)
+
+func (Version).newHeader
+    flags noframe
+    ensures[layout_v1] v == V1 ==> ret0 == nil && ret1 == nil
+    ensures[layout_v2] v == V2 ==> ret1 == nil && len(ret0) == 8 && hdrV2(ret0, opts)
+    ensures[layout_unknown] v != V1 && v != V2 ==> ret1 != nil
+
+func headerParse
+    flags noframe
+    requires len(h) >= 8 && bytesOK(h)
+    // a well-formed V2 header for these parameters is accepted, and nothing else is taken for V2
+    ensures[layout_v2]     hdrV2(h, opts) ==> ret0 == V2 && ret1 == nil
+    ensures[layout_only]   ret1 == nil && ret0 == V2 ==> hdrV2(h, opts)
+    // a file that does not start with the magic is a headerless V1 file iff its first item carries the base offset
+    ensures[layout_v1]     !hdrMagic(h) ==> (ret1 == nil <==> s64(sb64(h, 0)) == offset) && (ret1 == nil ==> ret0 == V1)
+    ensures[layout_result] ret1 == nil ==> ret0 == V1 || ret0 == V2
+    ensures[layout_failed] ret1 != nil ==> ret0 == VUnknown
+
 // ---- Stat (C13): message count of an index file from its size
 ghost var gIdxVer map[string]Version   // version found in the header of the index file at a path (headerless: V1)
 
